@@ -81,8 +81,11 @@ def _int(ex, args, kw, line):
         if not ex.branch_pruned(kk != 0 if isinstance(kk, SInt) else kk != 0):
             ex.raise_("ValueError", line)
         sh = n - kk
-        p = ex.mk_pow2(ex.name_int(sh, "sh")) if isinstance(sh, SInt) else 2 ** sh
-        return be(v.s) // p
+        if isinstance(sh, SInt):
+            sh = ex.name_int(sh, "sh")
+            ex.mk_pow2(sh)
+            return sym.shr(be(v.s), sh)
+        return be(v.s) // (2 ** sh)
     raise EngineLimit("int(%r, base=%r)" % (v, base))
 
 
@@ -336,6 +339,16 @@ def _object(ex, args, kw, line):
     return Sentinel("object()")
 
 
+@model("ecdsa.util.entropy_to_bits")
+def _entropy_to_bits(ex, args, kw, line):
+    """bin(int.from_bytes(e, 'big'))[2:].zfill(8 * len(e)): the 8*len(e)-character binary expansion of e"""
+    (e,) = args
+    if isinstance(e, (bytes, SBytes)):
+        ex.assumptions.add("entropy_to_bits(e) is the 8*len(e)-character binary expansion of e (idiom model, cross-checked against CPython)")
+        return SText("bits", s=e, take=None)
+    ex.raise_("TypeError", line)
+
+
 @model("six.b")
 def _six_b(ex, args, kw, line):
     (s,) = args
@@ -386,6 +399,17 @@ def _unhexlify(ex, args, kw, line):
         ex.assumptions.add("'%x' % v has hexlen(v) digits; unhexlify of an even-length hex text of v is v big-endian")
         return nbe(v.v, k)
     raise EngineLimit("unhexlify(%r)" % (v,))
+
+
+@model("os.urandom")
+def _urandom(ex, args, kw, line):
+    (k,) = args
+    b = ex.fresh_bytes("urandom")
+    ex.assume(eq(blen(b), k))
+    if hasattr(ex, "draws"):
+        ex.draws.append((k, b))
+    ex.assumptions.add("os.urandom(k) returns k bytes")
+    return b
 
 
 @model("warnings.warn")
@@ -525,6 +549,9 @@ def _cast(ex, obj, args, kw, line):
 def _bit_length(ex, obj, args, kw, line):
     if isinstance(obj, int):
         return obj.bit_length()
+    if hasattr(obj, "F"):
+        # field-mode value: its bit length only steers choices that do not change residues; left open (forks)
+        return ex.fresh_int("bitlen")
     if isinstance(obj, SInt):
         if ex.entails(obj >= 0):
             return bitlen(obj)
